@@ -1,9 +1,10 @@
 import TangeloModel.Export
+import TangeloProofs.Props.C11
 /-!
 # C17 — circuits survive export / import round trips
 -/
 namespace Tangelo.C17
-open Tangelo Export
+open Tangelo Export Circuit
 
 /-- **IonQ JSON round trip**: every gate the writer accepts is read back as the same gate (CNOT ≡ CX,
     variational flag aside), whatever its targets, controls and parameter. -/
@@ -81,6 +82,232 @@ theorem projectq_roundtrip (g : Gate) (l : PqLine) (hexp : pqExpressible g = tru
       (try (rename_i cs; rcases cs with _ | ⟨c, _ | ⟨c2, cs2⟩⟩ <;> simp at hexp h)) <;>
       (try subst h) <;>
       simp (config := {decide := true}) [pqRead, pqReverse, Tables.projectqGates, sameGate] <;> (try simp_all))
+
+/-! ## whole circuits -/
+
+theorem sameGate_qubits (g g' : Gate) (h : sameGate g g' = true) : g'.qubits = g.qubits := by
+  simp only [sameGate, Bool.and_eq_true, beq_iff_eq] at h
+  simp [Gate.qubits, h.1.1.2, h.1.2]
+
+/-- composing per-gate round trips over a list -/
+theorem mapOpt_roundtrip {α : Type} (w : Gate → Option α) (r : α → Option Gate) (P : Gate → Prop)
+    (hrt : ∀ g x, P g → w g = some x → ∃ g', r x = some g' ∧ sameGate g g' = true)
+    (gs : List Gate) (xs : List α) (hP : ∀ g ∈ gs, P g) (h : mapOpt w gs = some xs) :
+    ∃ gs', mapOpt r xs = some gs' ∧ sameGates gs gs' = true := by
+  induction gs generalizing xs with
+  | nil => simp [mapOpt] at h; subst h; exact ⟨[], rfl, rfl⟩
+  | cons g gs ih =>
+    simp only [mapOpt] at h
+    cases hw : w g with
+    | none => simp [hw] at h
+    | some x =>
+      cases hm : mapOpt w gs with
+      | none => simp [hw, hm] at h
+      | some xs' =>
+        simp [hw, hm] at h; subst h
+        obtain ⟨g', hr, hs⟩ := hrt g x (hP g (by simp)) hw
+        obtain ⟨gs', hr', hs'⟩ := ih xs' (fun a ha => hP a (by simp [ha])) hm
+        exact ⟨g' :: gs', by simp [mapOpt, hr, hr'], by simp [sameGates, hs, hs']⟩
+
+theorem forall₂_qubits (gs gs' : List Gate) (h : sameGates gs gs' = true) (n : Nat)
+    (hb : ∀ g ∈ gs, ∀ q ∈ g.qubits, q < n) : ∀ g ∈ gs', ∀ q ∈ g.qubits, q < n := by
+  induction gs generalizing gs' with
+  | nil => cases gs' <;> simp [sameGates] at h ⊢
+  | cons a as ih =>
+    cases gs' with
+    | nil => simp [sameGates] at h
+    | cons b bs =>
+      simp only [sameGates, Bool.and_eq_true] at h
+      intro g hg q hq
+      rcases List.mem_cons.mp hg with e | e
+      · subst e; rw [sameGate_qubits _ _ h.1] at hq; exact hb _ (by simp) q hq
+      · exact ih bs h.2 (fun x hx => hb x (by simp [hx])) g e q hq
+
+/-- gates inside the register are accepted -/
+theorem addGates_ok (gs : List Gate) (c : Circuit) (n : Nat) (hf : c.fixed = some n)
+    (hb : ∀ g ∈ gs, ∀ q ∈ g.qubits, q < n) : ∃ c', c.addGates gs = .ok c' := by
+  induction gs generalizing c with
+  | nil => exact ⟨c, rfl⟩
+  | cons g gs ih =>
+    have hbad : c.addGateBad g = false := by
+      simp only [Circuit.addGateBad, hf]
+      have : g.qubits.any (fun q => decide (q ≥ n)) = false := by
+        rw [List.any_eq_false]; intro q hq; have := hb g (by simp) q hq; simp; omega
+      simp [this]
+    simp only [Circuit.addGates, Circuit.addGate, hbad]
+    exact ih _ (by simp [Circuit.addGateCore, hf]) (fun a ha => hb a (by simp [ha]))
+
+theorem addGates_free_ok (gs : List Gate) (c : Circuit) (hf : c.fixed = Option.none) : ∃ c', c.addGates gs = .ok c' := by
+  induction gs generalizing c with
+  | nil => exact ⟨c, rfl⟩
+  | cons g gs ih =>
+    have hbad : c.addGateBad g = false := by simp [Circuit.addGateBad, hf]
+    simp only [Circuit.addGates, Circuit.addGate, hbad]
+    exact ih _ (by simp [Circuit.addGateCore, hf])
+
+/-- what a reader rebuilds: the gates `gs'` in a register of the written width `w` -/
+theorem rebuilt_width (gs' : List Gate) (w : Nat) (hb : ∀ g ∈ gs', ∀ q ∈ g.qubits, q < w) (hw0 : w = 0 → gs' = []) :
+    ∃ c', Circuit.ofGates gs' (if w = 0 then Option.none else some w) = .ok c' ∧ c'.width = w ∧ c'.gates = gs' := by
+  by_cases h0 : w = 0
+  · have := hw0 h0; subst this; subst h0
+    exact ⟨Circuit.empty Option.none, rfl, rfl, rfl⟩
+  · obtain ⟨n, rfl⟩ : ∃ n, w = n + 1 := ⟨w - 1, by omega⟩
+    simp only [h0, if_false]
+    obtain ⟨c', hc'⟩ := addGates_ok gs' (Circuit.empty (some (n + 1))) (n + 1) rfl hb
+    exact ⟨c', hc', C11.width_ofGates_fixed gs' n c' hc', Circuit.gates_ofGates gs' _ c' hc'⟩
+
+theorem fixed_addGates (gs : List Gate) (c c' : Circuit) (h : c.addGates gs = .ok c') : c'.fixed = c.fixed := by
+  induction gs generalizing c with
+  | nil => simp [Circuit.addGates] at h; subst h; rfl
+  | cons g gs ih =>
+    simp only [Circuit.addGates] at h
+    split at h
+    · cases h
+    · rename_i c1 h1
+      rw [ih c1 h]
+      unfold Circuit.addGate at h1
+      split at h1
+      · cases h1
+      · injection h1 with h1; subst h1; rfl
+
+theorem width_zero_no_gates (c : Circuit) (hc : c.Inv) (hq : ∀ g ∈ c.gates, g.qubits ≠ []) (hw : c.width = 0) : c.gates = [] := by
+  cases hg : c.gates with
+  | nil => rfl
+  | cons g gs =>
+    exfalso
+    have hne := hq g (by simp [hg])
+    obtain ⟨q, hq'⟩ := List.exists_mem_of_ne_nil _ hne
+    have := C11.used_lt_width c hc g (by simp [hg]) q hq'
+    omega
+
+theorem sameGates_nil_left (gs' : List Gate) (h : sameGates [] gs' = true) : gs' = [] := by
+  cases gs' <;> simp [sameGates] at h ⊢
+
+/-- **IonQ JSON, whole circuits**: a circuit of expressible gates is written, and what is read back has the same
+    width - idle qubits included - and the same gates. -/
+theorem ionq_circuit_roundtrip (c : Circuit) (j : IonqCirc) (hc : c.Inv) (hq : ∀ g ∈ c.gates, g.qubits ≠ [])
+    (hexp : ∀ g ∈ c.gates, ionqExpressible g = true) (h : ionqWriteCirc c = some j) :
+    ∃ c', ionqReadCirc j = .ok c' ∧ c'.width = c.width ∧ sameGates c.gates c'.gates = true := by
+  simp only [ionqWriteCirc, Option.map_eq_some_iff] at h
+  obtain ⟨rs, hrs, rfl⟩ := h
+  obtain ⟨gs', hr, hs⟩ := mapOpt_roundtrip ionqWrite ionqRead (fun g => ionqExpressible g = true)
+    (fun g x hg hx => ionq_roundtrip g x hg hx) c.gates rs hexp hrs
+  have hb := forall₂_qubits _ _ hs c.width (C11.used_lt_width c hc)
+  obtain ⟨d, hd⟩ := addGates_free_ok gs' (Circuit.empty Option.none) rfl
+  have hdg := Circuit.gates_ofGates gs' _ d hd
+  have hdw : d.width ≤ c.width := by
+    have hfree := C11.width_ofGates_free gs' d hd
+    rcases hfree.2 with e | ⟨g, hg, hq⟩
+    · omega
+    · have := hb g hg _ hq; omega
+  have hdf : d.fixed = Option.none := by
+    have := (fixed_addGates gs' _ d hd); simpa [Circuit.empty] using this
+  have hw0 : c.width = 0 → gs' = [] := by
+    intro h0
+    have := width_zero_no_gates c hc hq h0
+    rw [this] at hs
+    exact sameGates_nil_left _ hs
+  obtain ⟨c', hc', hwid, hg'⟩ := rebuilt_width gs' c.width hb hw0
+  refine ⟨c', ?_, hwid, by rw [hg']; exact hs⟩
+  simp only [ionqReadCirc, hr]
+  have hd' : Circuit.ofGates gs' Option.none = .ok d := hd
+  simp only [hd', Circuit.add, hdf]
+  have he : (Circuit.empty (some c.width)).gates ++ d.gates = gs' := by simp [Circuit.empty, hdg]
+  rw [he]
+  have hwd : (Circuit.empty (some c.width)).width = c.width := by
+    cases hcw : c.width with
+    | zero => simp [Circuit.empty, Circuit.truthy, Circuit.width]
+    | succ n => simp [Circuit.empty, Circuit.truthy, Circuit.width, List.getLast?_range]
+  rw [hwd, Nat.max_eq_left hdw]
+  by_cases h0 : c.width = 0
+  · simp only [h0, if_true] at hc'
+    simpa [h0, Circuit.truthy, Circuit.empty] using hc'
+  · simp only [h0, if_false] at hc'
+    obtain ⟨n, hn⟩ : ∃ n, c.width = n + 1 := ⟨c.width - 1, by omega⟩
+    simpa [hn, Circuit.truthy, Circuit.empty] using hc'
+
+theorem mapOpt_mem {α : Type} (w : Gate → Option α) (gs : List Gate) (xs : List α) (h : mapOpt w gs = some xs) :
+    ∀ x ∈ xs, ∃ g ∈ gs, w g = some x := by
+  induction gs generalizing xs with
+  | nil => simp [mapOpt] at h; subst h; simp
+  | cons g gs ih =>
+    simp only [mapOpt] at h
+    cases hw : w g with
+    | none => simp [hw] at h
+    | some x =>
+      cases hm : mapOpt w gs with
+      | none => simp [hw, hm] at h
+      | some xs' =>
+        simp [hw, hm] at h; subst h
+        intro y hy
+        rcases List.mem_cons.mp hy with e | e
+        · subst e; exact ⟨g, by simp, hw⟩
+        · obtain ⟨g', hg', hw'⟩ := ih xs' hm y e
+          exact ⟨g', by simp [hg'], hw'⟩
+
+theorem pqRead_measure (l : PqLine) (h : l.name = "Measure") : pqRead l = none := by
+  simp (config := {decide := true}) [pqRead, h]
+
+theorem maxIdx_range (w : Nat) : (maxIdx (List.range (w + 1))).map (· + 1) = some (w + 1) := by
+  have key : ∀ (n k : Nat), maxIdx ((List.range' k (n + 1))) = some (k + n) := by
+    intro n
+    induction n with
+    | zero => intro k; simp [List.range', maxIdx]
+    | succ n ih =>
+      intro k
+      rw [List.range'_succ]
+      simp only [maxIdx, ih (k + 1)]
+      congr 1; omega
+  rw [List.range_eq_range', key w 0]; simp
+
+theorem pqExpressible_qubits (g : Gate) (h : pqExpressible g = true) : g.qubits ≠ [] := by
+  have hlen : g.target.length = 1 := by
+    simp only [pqExpressible, Bool.or_eq_true, Bool.and_eq_true, beq_iff_eq] at h
+    rcases h with (h1 | h1) | h1 <;> simp_all
+  intro e
+  simp [Gate.qubits] at e
+  simp [e.1] at hlen
+
+/-- **ProjectQ text, whole circuits**: the `Allocate` lines carry the width; reading back gives the same
+    width - idle qubits included - and the same gates (for circuits of expressible gates; `MEASURE`, which the
+    writer emits and the reader drops, is the recorded finding and is excluded by `pqExpressible`). -/
+theorem projectq_circuit_roundtrip (c : Circuit) (p : PqProg) (hc : c.Inv)
+    (hexp : ∀ g ∈ c.gates, pqExpressible g = true) (h : pqWriteCirc c = some p) :
+    ∃ c', pqReadCirc p = .ok c' ∧ c'.width = c.width ∧ sameGates c.gates c'.gates = true := by
+  simp only [pqWriteCirc, Option.map_eq_some_iff] at h
+  obtain ⟨ls, hls, rfl⟩ := h
+  obtain ⟨gs', hr, hs⟩ := mapOpt_roundtrip pqWrite pqRead (fun g => pqExpressible g = true)
+    (fun g x hg hx => projectq_roundtrip g x hg hx) c.gates ls hexp hls
+  have hb := forall₂_qubits _ _ hs c.width (C11.used_lt_width c hc)
+  have hfilter : ls.filter (fun l => l.name != "Measure") = ls := by
+    rw [List.filter_eq_self]
+    intro l hl
+    obtain ⟨g, hg, hw⟩ := mapOpt_mem pqWrite c.gates ls hls l hl
+    obtain ⟨g', hg', _⟩ := projectq_roundtrip g l (hexp g hg) hw
+    by_cases hn : l.name = "Measure"
+    · rw [pqRead_measure l hn] at hg'; cases hg'
+    · simpa using hn
+  have hw0 : c.width = 0 → gs' = [] := by
+    intro h0
+    have := width_zero_no_gates c hc (fun g hg => pqExpressible_qubits g (hexp g hg)) h0
+    rw [this] at hs
+    exact sameGates_nil_left _ hs
+  obtain ⟨c', hc', hwid, hg'⟩ := rebuilt_width gs' c.width hb hw0
+  refine ⟨c', ?_, hwid, by rw [hg']; exact hs⟩
+  simp only [pqReadCirc, hfilter, hr]
+  by_cases h0 : c.width = 0
+  · simp only [h0, if_true] at hc'
+    simpa [h0, maxIdx] using hc'
+  · simp only [h0, if_false] at hc'
+    obtain ⟨n, hn⟩ : ∃ n, c.width = n + 1 := ⟨c.width - 1, by omega⟩
+    rw [hn, maxIdx_range n, ← hn]; exact hc'
+
+/-! ## non-vacuity: a 4-qubit register with an idle last qubit goes through both formats -/
+def demoGates : List Gate := [⟨"H", [0], none, .none, false⟩, ⟨"CNOT", [2], some [0], .none, false⟩, ⟨"RZ", [1], none, .ang (Ang.piQuarter 3), false⟩]
+example : ∃ c, Circuit.ofGates demoGates (some 4) = .ok c ∧ c.width = 4 ∧
+    (∃ j, ionqWriteCirc c = some j ∧ j.qubits = 4 ∧ (ionqReadCirc j).toOption.map (·.width) = some 4) ∧
+    (∃ p, pqWriteCirc c = some p ∧ p.allocs = [0, 1, 2, 3] ∧ (pqReadCirc p).toOption.map (·.width) = some 4) := by
+  refine ⟨_, rfl, by decide, ⟨_, rfl, by decide, by decide⟩, ⟨_, rfl, by decide, by decide⟩⟩
 
 /-! ## non-vacuity -/
 example : ionqWrite ⟨"CPHASE", [1], some [0, 2], .ang (Ang.piQuarter 3), false⟩ = some ⟨"z", [1], some [0, 2], some (.ang (Ang.piQuarter 3))⟩ := by decide
